@@ -43,6 +43,26 @@ CLAIMED = {
    text="Partial (no interleaving semantics): race-freedom obligations on scopes. Proved for every function of package env: every access to the contents of Env.data holds Env.mu in the right mode or the scope is fresh and unpublished; the *NT methods are only called with the lock held (callee preconditions discharged at every call site, also in the evaluator's packages through C04/C05/C01 runs); Env.mu/data/outer are only assigned on fresh objects; every path releases what it locked; a scope's lock is only held while the lock of a strict ancestor is taken (lock/order with rank = outer-chain depth, which also rules out self-deadlock); the scope constructors return fresh scopes whose outer is the given scope. Recorded known finding: Atom.LispPrint reads Atom.Val without the atom's lock.",
    note="M-NI (non-interference from race-freedom, fresh local scopes, immutable values C02) is a meta-argument; the package-level debugger flags (skip/outing1/outing2, written only under an installed Stepper) are not covered by an obligation; gensym/memoize are lisp source.",
    tech="contract-based deductive verification of the lock discipline over go/ssa VCs (ghost lockset, guarded fields, lock/order by rank, field immutability, fresh-scope post-conditions); z3/cvc5; no interleaving semantics"),
+ "C01": dict(level="proof", ref="DESIGN.md §4 C01",
+   text="EVAL's tail-recursive loop, eval_ast, do, macroexpand, is_macro_call and Apply are proved, for every form, scope and world, to refine a world-threaded definition of the language written as step relations over abstract outcome functions (value, error, scope world): each way out of an EVAL iteration (every return, every back edge) yields what the definition prescribes for symbols, lists/vectors (elements once, left to right), def (binds in the current scope, returns the value), if (only nil/false falsy, only the selected branch), do (all forms in order, last in tail position), fn (closure over the defining scope), quote, closure application (arguments once, left to right, before binding; body in a scope built from the closure's scope) and builtin application. let: shape errors, new scope first, bindings evaluated sequentially in that scope (loop invariant), tail continuation. Not proved: the outcome of a let body, try (see C03), the order of hash-map literal evaluation.",
+   note="Partial correctness against a definition whose scope operations are named by uninterpreted functions (A-WORLD: their relation to env.go is assumed here); callee outcomes including the recursive calls are assumed to be the definition's (A-FIX, one unfolding proved per function); no context expires (A-TIME); builtins are functions of arguments and world (A-FN); Stepper == nil here (C18 removes that).",
+   tech="contract-based deductive verification: refinement of step relations by a tail-recursive loop (tailrec clause: relation checked at every return and back edge against the loop-head state), world ghost, decision-tree walk of the relation in an incremental z3 session, VCs from go/ssa, z3 5.1/4.8 and cvc5"),
+ "C08": dict(level="proof", ref="DESIGN.md §4 C08",
+   text="For every form, scope and world it is proved that no return of EVAL's loop is reachable in a case where the definition continues with another form in tail position (last form of do, let and closure bodies, the selected if branch, a quasiquote expansion, the application of a closure, and whatever macro expansions reduce to these): those cases leave the iteration only through the loop's back edge, whose form, scope and world are proved to be the definition's (step/continue). A back edge of a Go for-loop allocates no frame, so the host stack at the n-th tail iteration does not depend on n.",
+   note="Stepper == nil (with a debugger installed EVAL recurses on purpose). The catch handler and finally bodies are not tail positions in the statement and are not claimed. Stack use of non-tail recursion is outside the property.",
+   tech="contract-based deductive verification: obligation tco/return-in-tail-position generated from the decision tree of the step relation (tail leaves OUT == evalOut(...) or tail(...) must be unreachable at returns), plus step/continue; z3/cvc5"),
+ "C12": dict(level="other", ref="DESIGN.md §4 C12",
+   text="Partial. Proved for all forms, scopes and worlds: macroexpand's loop against its step relation (a call whose head symbol is bound, in the caller's scope chain, to a closure flagged as macro is replaced by the result of applying that closure to the UNEVALUATED operands, repeated until the head is no macro; errors propagate); is_macro_call equals the definition's test; every EVAL iteration macro-expands first and evaluates the expansion in the same scope, so a macro call has the outcome of its expansion; defmacro binds a copy flagged as macro; the macroexpand special form returns the expansion unevaluated; quasiquote's result is evaluated in tail position in the same scope. NOT proved: the quasiquote template algebra (quasiquote()/qq_loop are abstract: only no-panic under C04).",
+   note="Same assumptions as C01. The library macros (cond, ->, and, or ...) are lisp source and are covered only through the general statement about all macros.",
+   tech="contract-based deductive verification: tailrec refinement of mexpStep by macroexpand's loop, functional post-condition of is_macro_call, the defmacro/macroexpand/quasiquote cases of EVAL's step relation; z3/cvc5"),
+ "C18": dict(level="proof", ref="DESIGN.md §4 C18",
+   text="The step-relation proof of C01 is repeated for EVAL, eval_ast, do and macroexpand WITHOUT the precondition that no Stepper is installed: with an arbitrary callback returning any of its four commands at every consultation, with the skip/outing flags in any state, through the debugger's deferred reports and through the recursion that replaces the loop, every EVAL activation still satisfies the same definition (same value, error and world), for all forms covered by C01.",
+   note="A-STEPPER: the callback returns a command and leaves scopes and forms alone (field contract lisp.Stepper); PRINT/fmt.Println in the deferred reports do not touch the world. That the callback receives EVAL's own form and scope is visible at its single call site and is not a separate obligation. try and let bodies as in C01.",
+   tech="contract-based deductive verification: the tailrec refinement obligations of C01 generated with the Stepper-free precondition dropped (property-tagged clauses), callback under a field contract; z3/cvc5"),
+ "C03": dict(level="other", ref="DESIGN.md §4 C03",
+   text="Partial. Proved: the object a catch clause receives (thrownOf: the wrapped value of a LispError, else the error itself) is unchanged by throw (errors as they are, other values wrapped), by lisperror.NewLispError's re-positioning (never re-wraps), is what ErrorValue returns, and is preserved by EVAL when it re-positions a builtin's error; errors propagate unchanged through eval_ast, do, macroexpand, Apply and every special form covered by C01; the empty try form. A genuine defect (handler value evaluated a second time in the handler's scope, finally run in the handler's scope) was found while specifying the form and fixed. NOT proved: the try form itself (body/handler/finally sequencing): its relation (tryStepFull, with cut lemma tryShape) is written in the contract file but needs 10-60 s per case in z3/cvc5, too close to the time-outs to be claimed.",
+   note="errors.Is reachability of wrapped Go errors (fmt.Errorf %w in lib/call, NewGoError) is not modelled; the string handed to catch for errors without ErrorValue is abstract (errorString).",
+   tech="contract-based deductive verification: functional post-conditions of throw / NewLispError / ErrorValue against thrownOf, thrown-object clause in EVAL's step relation (builtin error case); z3/cvc5"),
 }
 
 NA_REASON_WIP = ("check under construction (the contract-based VC engine exists; this property's contracts are not wired yet): "
